@@ -255,15 +255,70 @@ func appendedAlloc(a *ssa.Call) *ssa.Alloc {
 		}
 		for _, rr := range *ia.Referrers() {
 			if st, ok := rr.(*ssa.Store); ok && st.Addr == ia {
-				if u, ok := st.Val.(*ssa.UnOp); ok {
-					if al, ok := u.X.(*ssa.Alloc); ok {
-						res = al
-					}
+				if al := structOrigin(st.Val, 6); al != nil {
+					res = al
 				}
 			}
 		}
 	}
 	return res
+}
+
+// structOrigin: the one local struct whose fields were assigned and whose value v is a copy of — directly (a load), through
+// whole-struct copies into other locals ( outer = inner ) or through the result variables of an inlined helper (phis of loads).
+func structOrigin(v ssa.Value, depth int) *ssa.Alloc {
+	if depth == 0 || v == nil {
+		return nil
+	}
+	switch x := v.(type) {
+	case *ssa.UnOp:
+		if x.Op != token.MUL {
+			return nil
+		}
+		al, ok := x.X.(*ssa.Alloc)
+		if !ok {
+			return nil
+		}
+		hasField := false
+		var whole []ssa.Value
+		for _, r := range *al.Referrers() {
+			switch y := r.(type) {
+			case *ssa.FieldAddr:
+				for _, rr := range *y.Referrers() {
+					if st, ok := rr.(*ssa.Store); ok && st.Addr == ssa.Value(y) {
+						hasField = true
+					}
+				}
+			case *ssa.Store:
+				if y.Addr == ssa.Value(al) {
+					whole = append(whole, y.Val)
+				}
+			}
+		}
+		if hasField {
+			return al
+		}
+		var res *ssa.Alloc
+		for _, w := range whole {
+			o := structOrigin(w, depth-1)
+			if o == nil || (res != nil && res != o) {
+				return nil
+			}
+			res = o
+		}
+		return res
+	case *ssa.Phi:
+		var res *ssa.Alloc
+		for _, e := range x.Edges {
+			o := structOrigin(e, depth-1)
+			if o == nil || (res != nil && res != o) {
+				return nil
+			}
+			res = o
+		}
+		return res
+	}
+	return nil
 }
 
 func c09r2(c *core.Ctx) {
